@@ -30,6 +30,7 @@ if [ $RB -eq 0 ] && [ $RS -eq 0 ]; then
   done
   git -C $RUT checkout -- .
   git -C $RUT status --short
+  git -C /verif checkout -- lean/Pokerface/Generated 2>/dev/null   # the files regenerated from the changed tree are not /repo's
 else
   RES="not-confirmed build=$RB suite=$RS"
 fi
